@@ -50,7 +50,26 @@ def reference(root, cfg, flowmarkignore):
                     continue
                 out.append(os.path.realpath(p))
     walk(root, "")
-    return sorted(out)
+    from pathlib import Path as _P
+    return [str(x) for x in sorted(_P(o) for o in out)]        # Path order (component-wise), the order `sorted` gives the resolver
+
+
+DOCUMENTED_DEFAULT_EXCLUDES = [".git", "node_modules", ".venv", "venv", "__pycache__", "build", "dist", ".tox", ".nox", ".idea",
+                               ".vscode", "vendor", "third_party"]          # README, "Default exclusions"
+
+
+def static_obligations(tier):
+    """ST obligations on the live default lists: the documented default include (*.md only) and each documented default
+    exclusion is a directory pattern of DEFAULT_EXCLUDES"""
+    from flowmark.file_resolver import defaults as Df
+    recs = [{"oid": "defaults/file_resolver.defaults:DEFAULT_INCLUDES/only_md",
+             "status": "discharged" if list(Df.DEFAULT_INCLUDES) == ["*.md"] else "refuted",
+             "src": "DEFAULT_INCLUDES == ['*.md'] (README: only *.md files by default)", "detail": repr(Df.DEFAULT_INCLUDES)}]
+    for name in DOCUMENTED_DEFAULT_EXCLUDES:
+        recs.append({"oid": "defaults/file_resolver.defaults:DEFAULT_EXCLUDES/%s" % name,
+                     "status": "discharged" if name + "/" in Df.DEFAULT_EXCLUDES else "refuted",
+                     "src": "the documented default exclusion '%s/' is in DEFAULT_EXCLUDES" % name, "detail": ""})
+    return recs
 
 
 def bounded(tier, seed):
